@@ -382,7 +382,7 @@ func sameViolation(o RunOut, oracle, class string) bool {
 }
 
 // shrink minimises the tape in-process: truncate, then ddmin-style zeroing and deletion of chunks.
-func shrink(p *Profile, rf *ReplayFile, budget time.Duration) []uint32 {
+func shrink(p *Profile, rf *ReplayFile, budget time.Duration, findings []Finding) []uint32 {
 	deadline := time.Now().Add(budget)
 	best := append([]uint32(nil), rf.Tape...)
 	try := func(t []uint32) bool {
@@ -390,7 +390,8 @@ func shrink(p *Profile, rf *ReplayFile, budget time.Duration) []uint32 {
 			return false
 		}
 		o := ExecRun(p, rf.Tier, rf.Seed, rf.Run, t, false)
-		return sameViolation(o, rf.Expect.Oracle, rf.Expect.Class)
+		// keep the violation class, and never let the minimised run drift into a listed known finding
+		return sameViolation(o, rf.Expect.Oracle, rf.Expect.Class) && matchFinding(findings, p.Property, o.Viol[0]) == nil
 	}
 	// 1. truncate the tail (exhausted tape reads 0 = benign)
 	lo, hi := 0, len(best)
@@ -546,7 +547,7 @@ func Main() {
 		}
 		p := profiles[rf.Property]
 		rf.OriginalTapeLen = len(rf.Tape)
-		rf.Tape = shrink(p, rf, time.Duration(envInt("VERIF_SHRINK_S", 45))*time.Second)
+		rf.Tape = shrink(p, rf, time.Duration(envInt("VERIF_SHRINK_S", 45))*time.Second, loadFindings(filepath.Join(verif, "known_findings.json")))
 		o := ExecRun(p, rf.Tier, rf.Seed, rf.Run, rf.Tape, true)
 		if !sameViolation(o, rf.Expect.Oracle, rf.Expect.Class) {
 			die2("shrunk tape does not reproduce")
